@@ -204,3 +204,135 @@ Theorem C02_along_every_history :
 Proof. exact apply_removes_only_own_along_histories. Qed.
 Print Assumptions C02_along_every_history.
 
+(* ---- "every field owned by another manager keeps its value unless the configuration
+   itself sets it" (Proofs/OthersKeep.v ...): a leaf that another manager owns and the
+   configuration does not mention either is still there with an equal value, or sits
+   strictly beneath a member of the closure of the APPLIER'S OWN previous record that is
+   gone from the result (a field of another manager inside an item that only the applier
+   owned goes with the item).  Needs [anc_shared] -- of two managers owning the same field
+   at least one owns each ancestor of it -- which is an invariant of every reachable state
+   (C02_shared_ancestors_invariant), so the along-histories form has no extra hypothesis;
+   the step form is refuted without it on a hand-made (unreachable) state. ---- *)
+From SMD Require Import Proofs.ReconcileLaws Proofs.TreeFacts Proofs.ApplyPrune Proofs.AncSharedDef Proofs.AncShared
+  Proofs.OthersKeepStep Proofs.OthersKeep.
+Theorem C02_others_keep_their_value :
+  forall (c : config) (R : typeref -> Prop) (ver : string) (live : value) 
+           (mf : managed) (mgr : string) (cfg : value) (force : bool) 
+           (o : option tv) (mf' : managed) (m : string) (r : mrec) (p : path) 
+           (tr' : typeref) (x : value),
+         setting_ok c R ver ->
+         state_ok c ver live mf ->
+         anc_shared (schema_of c ver) (tr_of c ver) mf ->
+         op_ok c ver (HApply mgr cfg force) ->
+         apply_op c (ver, live) (ver, cfg) ver mf mgr force = UOk (o, mf') ->
+         m <> mgr ->
+         mf_get m mf = Some r ->
+         wf_path p = true ->
+         ps_has p (mr_set r) = true ->
+         (forall q : path,
+          In q (map fst (nodes (schema_of c ver) (tr_of c ver) cfg)) ->
+          is_prefix p q = false /\
+          (is_prefix q p = true ->
+           exists (trq : typeref) (y : value),
+             resolve_path (schema_of c ver) (tr_of c ver) cfg q = Some (RNode trq y) /\
+             ~ leafy (schema_of c ver) trq y)) ->
+         resolve_path (schema_of c ver) (tr_of c ver) live p = Some (RNode tr' x) ->
+         leafy (schema_of c ver) tr' x ->
+         x <> VList nil ->
+         let res := match o with
+                    | Some t => snd t
+                    | None => live
+                    end in
+         (exists y : value,
+            resolve_path (schema_of c ver) (tr_of c ver) res p = Some (RNode tr' y) /\
+            veqb x y = true) \/
+         (exists (q : path) (last : mrec),
+            is_prefix q p = true /\
+            q <> p /\
+            mf_get mgr mf = Some last /\
+            ps_has q (ps_en (schema_of c ver) (tr_of c ver) (mr_set last)) = true /\
+            present (schema_of c ver) (tr_of c ver) res q = false).
+Proof. exact apply_keeps_others_fields. Qed.
+Print Assumptions C02_others_keep_their_value.
+
+Theorem C02_others_keep_their_value_along_every_history :
+  forall (c : config) (R : typeref -> Prop) (ver : string) (ops : list hop) 
+           (mgr : string) (cfg : value) (force : bool) (o : option tv) 
+           (mf' : managed) (m : string) (r : mrec) (p : path) (tr' : typeref) 
+           (x : value),
+         setting_ok c R ver ->
+         Forall (op_ok c ver) ops ->
+         op_ok c ver (HApply mgr cfg force) ->
+         apply_op c (ver, fst (run c ver ops)) (ver, cfg) ver (snd (run c ver ops)) mgr force =
+         UOk (o, mf') ->
+         m <> mgr ->
+         mf_get m (snd (run c ver ops)) = Some r ->
+         wf_path p = true ->
+         ps_has p (mr_set r) = true ->
+         (forall q : path,
+          In q (map fst (nodes (schema_of c ver) (tr_of c ver) cfg)) ->
+          is_prefix p q = false /\
+          (is_prefix q p = true ->
+           exists (trq : typeref) (y : value),
+             resolve_path (schema_of c ver) (tr_of c ver) cfg q = Some (RNode trq y) /\
+             ~ leafy (schema_of c ver) trq y)) ->
+         resolve_path (schema_of c ver) (tr_of c ver) (fst (run c ver ops)) p =
+         Some (RNode tr' x) ->
+         leafy (schema_of c ver) tr' x ->
+         x <> VList nil ->
+         let res := match o with
+                    | Some t => snd t
+                    | None => fst (run c ver ops)
+                    end in
+         (exists y : value,
+            resolve_path (schema_of c ver) (tr_of c ver) res p = Some (RNode tr' y) /\
+            veqb x y = true) \/
+         (exists (q : path) (last : mrec),
+            is_prefix q p = true /\
+            q <> p /\
+            mf_get mgr (snd (run c ver ops)) = Some last /\
+            ps_has q (ps_en (schema_of c ver) (tr_of c ver) (mr_set last)) = true /\
+            present (schema_of c ver) (tr_of c ver) res q = false).
+Proof. exact apply_keeps_others_fields_along_histories. Qed.
+Print Assumptions C02_others_keep_their_value_along_every_history.
+
+Theorem C02_shared_ancestors_invariant :
+  forall (c : config) (R : typeref -> Prop) (ver : string) (ops : list hop),
+         setting_ok c R ver ->
+         Forall (op_ok c ver) ops ->
+         anc_shared (schema_of c ver) (tr_of c ver) (snd (run c ver ops)).
+Proof. exact anc_shared_reachable. Qed.
+Print Assumptions C02_shared_ancestors_invariant.
+
+Theorem C02_others_keep_needs_shared_ancestors :
+  ~ apply_keeps_others_fields_as_stated.
+Proof. exact apply_keeps_others_fields_as_stated_refuted. Qed.
+Print Assumptions C02_others_keep_needs_shared_ancestors.
+
+Theorem C02_example_field_survives :
+  present ex_schema ex_rt okx_obj
+           (PEField "items" :: PEKey (("name", VStr "x") :: nil) :: nil) = true /\
+         present ex_schema ex_rt okx_res
+           (PEField "items" :: PEKey (("name", VStr "x") :: nil) :: nil) = false /\
+         (exists y : value,
+            resolve_path ex_schema ex_rt okx_res
+              (PEField "items" :: PEKey (("name", VStr "y") :: nil) :: PEField "vv" :: nil) =
+            Some (RNode ex_num y) /\ veqb (VInt 7) y = true).
+Proof. exact others_field_survives. Qed.
+Print Assumptions C02_example_field_survives.
+
+Theorem C02_example_field_goes_with_member :
+  resolve_path ex_schema ex_rt okx_res
+           (PEField "items" :: PEKey (("name", VStr "x") :: nil) :: PEField "vv" :: nil) = None /\
+         (exists (q : path) (last : mrec),
+            wf_path q = true /\
+            is_prefix q
+              (PEField "items" :: PEKey (("name", VStr "x") :: nil) :: PEField "vv" :: nil) =
+            true /\
+            q <> PEField "items" :: PEKey (("name", VStr "x") :: nil) :: PEField "vv" :: nil /\
+            mf_get "a" okx_mf = Some last /\
+            ps_has q (ps_en ex_schema ex_rt (mr_set last)) = true /\
+            present ex_schema ex_rt okx_res q = false).
+Proof. exact others_field_goes_with_member. Qed.
+Print Assumptions C02_example_field_goes_with_member.
+
